@@ -91,7 +91,10 @@ BOOL = 'bool'        # True / False
 STR = 'str'          # a Python str used as TEXT: seen through its UTF-8 encoding (Py.Str)
 KEY = 'key'          # a Python str used as a dictionary key / name (Lean String): only built, compared, looked up
 DICT = 'dict'        # a dict from KEY to int (the `markers` scratch map): Py.Dict
+POISON = 'poison'    # a name bound inside a loop body, after the loop (whether it is bound depends on the iterations)
 UNUSED = 'unused'    # a parameter the function must not mention (no Lean parameter is made for it)
+LIST = 'list'        # a list of byte strings (FormalName): List Bytes
+LIST_ANN = {'FormalName'}
 
 
 def opt(t):
@@ -116,8 +119,10 @@ def lean_type(t):
         return 'Int'
     if t == BYTES:
         return 'Bytes'
-    if t in (BOOL, STR, KEY, DICT):
-        return {BOOL: 'Bool', STR: 'Py.Str', KEY: 'String', DICT: 'Py.Dict'}[t]
+    if t in (BOOL, STR, KEY, DICT, LIST):
+        return {BOOL: 'Bool', STR: 'Py.Str', KEY: 'String', DICT: 'Py.Dict', LIST: '(List Bytes)'}[t]
+    if t == tup([]):
+        return 'Unit'
     if is_opt(t):
         return f'(Option {lean_type(t[1])})'
     return '(' + ' × '.join(lean_type(x) for x in t[1]) + ')'
@@ -167,7 +172,17 @@ def ann_type(node):
             return INT
         if node.id in BYTES_ANN:
             return BYTES
+        if node.id in LIST_ANN:
+            return LIST
+        if node.id == 'bool':
+            return BOOL
         return None
+    if isinstance(node, ast.Subscript) and isinstance(node.value, ast.Name) and node.value.id in ('list', 'List'):
+        return LIST if ann_type(node.slice) == BYTES else None
+    if isinstance(node, ast.BinOp) and isinstance(node.op, ast.BitOr) and isinstance(node.right, ast.Constant) \
+            and node.right.value is None:
+        t = ann_type(node.left)
+        return opt(t) if t in (INT, BYTES) else None
     if isinstance(node, ast.Tuple):
         ts = [ann_type(e) for e in node.elts]
         return tup(ts) if ts and all(t is not None for t in ts) else None
@@ -177,10 +192,12 @@ def ann_type(node):
 
 
 class Sig:
-    def __init__(self, fn, consts=None):
+    def __init__(self, fn, consts=None, spec=None):
         self.fn = fn
         self.name = fn.name
         self.consts = consts or {}
+        self.spec = spec or {}        # what the request declares: {'params': {name: type}, 'identity_calls': [...],
+        #                               'fuel': [python int expression for each while loop, in source order]}
         self.lean_name = ident(fn.name)                   # how translated code refers to it
         self.done = False                                 # translated successfully
         self.error = None
@@ -203,12 +220,15 @@ class Sig:
             raise Untranslatable('*args / **kwargs / keyword-only / positional-only parameters', fn)
         defaults = [None] * (len(a.args) - len(a.defaults)) + list(a.defaults)
         for p, d in zip(a.args, defaults):
-            t = ann_type(p.annotation)
-            if t not in (INT, BYTES):
-                raise Untranslatable(f'parameter {p.arg!r} without an int / byte-string annotation', p)
+            t = self.spec.get('params', {}).get(p.arg) or ann_type(p.annotation)
+            if t not in (INT, BYTES, LIST, opt(BYTES)):
+                raise Untranslatable(f'parameter {p.arg!r} without an int / byte-string / list-of-byte-strings '
+                                     'annotation', p)
             dv = None
             if d is not None:
-                if isinstance(d, ast.Constant) and type(d.value) is int and t == INT:
+                if isinstance(d, ast.Constant) and d.value is None and is_opt(t):
+                    dv = 'none'
+                elif isinstance(d, ast.Constant) and type(d.value) is int and t == INT:
                     dv = d.value
                 elif isinstance(d, ast.Name) and d.id in self.consts and t == INT:
                     dv = self.consts[d.id]          # (defaults are evaluated once, at definition time)
@@ -232,7 +252,7 @@ class MethodSig(Sig):
         self.spec = spec
         self.variant = variant
         self.static = dict(spec.get('static', {}))
-        super().__init__(fn, consts)
+        super().__init__(fn, consts, spec)
         self.name = f'{cls_name}_{fn.name}' + (f'_{variant}' if variant else '')
         self.lean_name = ident(self.name)
 
@@ -338,6 +358,14 @@ class FnTranslator:
         self.ntmp = 0
         self.used = {n.id for n in ast.walk(sig.fn) if isinstance(n, ast.Name)} | {p[0] for p in sig.params}
         self.mut = [sig.params[i][0] for i in sorted(sig.mutated)]
+        self.mut_expr = {m: ident(m) for m in self.mut}   # Lean term for the caller's object behind a written parameter
+        self.locallists = set()       # local names bound to a fresh `[]`: lists this function owns (may be appended to)
+        self.identity_calls = set(sig.spec.get('identity_calls', ())) if isinstance(sig.spec, dict) else set()
+        self.fuel_specs = list(sig.spec.get('fuel', ())) if isinstance(sig.spec, dict) else []
+        self.reduce_ok = False        # `reduce` is functools.reduce in this module (set by translate_module)
+        self.in_loop = 0
+        self.nloop = 0
+        self.aux = []                 # definitions of while loops, emitted before the function
 
     # ------------------------------------------------------------------ helpers
     def tmp(self):
@@ -354,7 +382,13 @@ class FnTranslator:
         return f'Except PyErr ({t})' if self.mut else f'Except PyErr {t}'
 
     def ret_term(self, term):
-        return 'pure ' + ('(' + ', '.join([term] + [ident(m) for m in self.mut]) + ')' if self.mut else term)
+        return 'pure ' + ('(' + ', '.join([term] + [self.mut_expr[m] for m in self.mut]) + ')' if self.mut else term)
+
+    def save_state(self):
+        return set(self.localbufs), set(self.locallists), dict(self.mut_expr)
+
+    def restore_state(self, st):
+        self.localbufs, self.locallists, self.mut_expr = set(st[0]), set(st[1]), dict(st[2])
 
     # ------------------------------------------------------------------ expressions
     # expr(node, env, pre, ctx) -> (lean term, type); effectful parts are appended to `pre` as do-lines in evaluation order
@@ -443,11 +477,26 @@ class FnTranslator:
                     return f'({self.consts[node.id]} : Int)', INT
                 raise Untranslatable(f'name {node.id!r} that is not a parameter, a local variable or a module-level '
                                      'int constant', node)
+            if env[node.id] == POISON:
+                raise Untranslatable(f'name {node.id!r} read after the loop that binds it', node)
             return ident(node.id), env[node.id]
+        if isinstance(node, ast.List):
+            if node.elts:
+                raise Untranslatable('list display that is not the empty list', node)
+            self.fresh_list = True
+            return '([] : List Bytes)', LIST
+        if isinstance(node, (ast.Compare, ast.BoolOp)) or (isinstance(node, ast.UnaryOp) and isinstance(node.op, ast.Not)):
+            # a test used as a VALUE: only when every operand of and / or / not is itself a comparison or a bool (then
+            # Python's result is that bool; `x and y` on other values would return an operand)
+            self.bool_valued(node, env)
+            c = self.test(node, env, pre)
+            if c is True or c is False:
+                return ('true' if c else 'false'), BOOL
+            return f'(decide {c})', BOOL
         if isinstance(node, ast.Tuple):
             parts = [self.expr(e, env, pre) for e in node.elts]
-            if not parts or any(t != INT and t != BYTES for _, t in parts):
-                raise Untranslatable('tuple whose elements are not ints / byte strings', node)
+            if not parts or any(t not in (INT, BYTES, LIST) for _, t in parts):
+                raise Untranslatable('tuple whose elements are not ints / byte strings / lists of byte strings', node)
             return '(' + ', '.join(x for x, _ in parts) + ')', tup([t for _, t in parts])
         if isinstance(node, ast.UnaryOp):
             if isinstance(node.op, (ast.USub, ast.UAdd)):
@@ -473,6 +522,23 @@ class FnTranslator:
         if isinstance(node, ast.Call):
             return self.call(node, env, pre, top=False)
         raise Untranslatable(f'expression {type(node).__name__}', node)
+
+    def bool_valued(self, node, env):
+        if isinstance(node, ast.Compare):
+            if any(isinstance(o, (ast.Is, ast.IsNot, ast.In, ast.NotIn)) for o in node.ops):
+                raise Untranslatable('is / in comparison used as a value', node)
+            return
+        if isinstance(node, ast.UnaryOp) and isinstance(node.op, ast.Not):
+            return                  # `not x` is always a bool; its operand is read as a test
+        if isinstance(node, ast.BoolOp):
+            for v in node.values:
+                self.bool_valued(v, env)
+            return
+        if isinstance(node, ast.Constant) and (node.value is True or node.value is False):
+            return
+        if isinstance(node, ast.Name) and env.get(node.id) == BOOL:
+            return
+        raise Untranslatable('and / or used as a value with an operand that is not a comparison / bool', node)
 
     def binop(self, node, env, pre):
         a, ta = self.expr(node.left, env, pre)
@@ -520,18 +586,21 @@ class FnTranslator:
             if self.buffer_name(node.value) is not None and not slice_ok:
                 raise Untranslatable('slice of a buffer this function writes to, outside return / struct.unpack / '
                                      'bytes / len (it would alias the buffer)', node)
+            if isinstance(node.value, ast.Name) and node.value.id in self.locallists:
+                raise Untranslatable('slice of a list this function appends to', node)
             x, t = self.expr(node.value, env, pre)
-            if t != BYTES:
-                raise Untranslatable('slice of something that is not a byte string', node)
+            if t != BYTES and t != LIST:
+                raise Untranslatable('slice of something that is not a byte string / list of byte strings', node)
+            BYTES_ = t
             lo = self.expr(sl.lower, env, pre) if sl.lower is not None else ('(0 : Int)', INT)
             if lo[1] != INT:
                 raise Untranslatable('slice bound that is not an int', node)
             if sl.upper is None:
-                return f'(Py.sliceFrom {x} {lo[0]})', BYTES
+                return f'(Py.sliceFrom {x} {lo[0]})', BYTES_
             hi = self.expr(sl.upper, env, pre)
             if hi[1] != INT:
                 raise Untranslatable('slice bound that is not an int', node)
-            return f'(Py.slice {x} {lo[0]} {hi[0]})', BYTES
+            return f'(Py.slice {x} {lo[0]} {hi[0]})', BYTES_
         x, t = self.expr(node.value, env, pre)
         i, ti = self.expr(sl, env, pre)
         if t == DICT:
@@ -629,6 +698,37 @@ class FnTranslator:
             if t != BYTES:
                 raise Untranslatable('int.from_bytes of something that is not a byte string', node)
             return f'(Py.intFromBytesBig {x})', INT
+        if isinstance(f, ast.Name) and f.id == 'reduce' and f.id not in env and self.reduce_ok:
+            # functools.reduce(lambda x, y: <int expression>, <list of byte strings>, <int>): a left fold
+            if node.keywords or len(node.args) != 3 or not isinstance(node.args[0], ast.Lambda):
+                raise Untranslatable('reduce other than reduce(lambda x, y: ..., sequence, initial)', node)
+            lam = node.args[0]
+            la = lam.args
+            if la.vararg or la.kwarg or la.kwonlyargs or la.posonlyargs or la.defaults or len(la.args) != 2 \
+                    or la.args[0].arg == la.args[1].arg:
+                raise Untranslatable('reduce with a lambda that does not have exactly two plain parameters', node)
+            seq, ts = self.expr(node.args[1], env, pre)
+            ini, ti = self.expr(node.args[2], env, pre)
+            if ts != LIST or ti != INT:
+                raise Untranslatable('reduce over something that is not (list of byte strings, int)', node)
+            xa, ya = la.args[0].arg, la.args[1].arg
+            if xa in self.mut or ya in self.mut or xa in self.localbufs or ya in self.localbufs or '_' in (xa, ya):
+                raise Untranslatable('lambda parameter that hides a buffer', node)
+            env2 = dict(env)
+            env2[xa], env2[ya] = INT, BYTES
+            body, tb = self.pure_expr(lam.body, env2, 'lambda body')
+            if tb != INT:
+                raise Untranslatable('reduce with a lambda whose body is not an int expression', node)
+            return f'(Py.reduce (fun ({ident(xa)} : Int) ({ident(ya)} : Bytes) => {body}) {seq} {ini})', INT
+        if isinstance(f, ast.Name) and f.id in self.identity_calls and f.id not in env:
+            # declared by the request (and stated in the generated comment): on a list of byte strings this function
+            # of the module returns its argument (an equal list)
+            if node.keywords or len(node.args) != 1:
+                raise Untranslatable(f'{f.id}() call shape', node)
+            x, t = self.expr(node.args[0], env, pre)
+            if t != LIST:
+                raise Untranslatable(f'{f.id}() of something that is not a list of byte strings', node)
+            return x, LIST
         if isinstance(f, ast.Name) and f.id in ('len', 'bytes', 'bytearray', 'memoryview', 'int') and f.id not in env:
             self.builtin(f.id, env, node)
             if node.keywords or len(node.args) != 1:
@@ -642,6 +742,8 @@ class FnTranslator:
                 if t != INT:
                     raise Untranslatable('int() of something that is not an int', node)
                 return x, INT
+            if f.id == 'len' and t == LIST:
+                return f'(Py.len {x})', INT
             if t != BYTES:
                 raise Untranslatable(f'{f.id}() of something that is not a byte string', node)
             return (f'(Py.len {x})', INT) if f.id == 'len' else (x, BYTES)
@@ -670,7 +772,7 @@ class FnTranslator:
                 if a is None:
                     if dv is None:
                         raise Untranslatable(f'missing argument {pn!r}', node)
-                    terms.append(f'({dv} : Int)')
+                    terms.append('none' if dv == 'none' else f'({dv} : Int)')
                     continue
                 if i in g.mutated:
                     if not (isinstance(a, ast.Name) and (a.id in self.mut or a.id in self.localbufs)):
@@ -741,7 +843,7 @@ class FnTranslator:
                 sym = {ast.Lt: '<', ast.LtE: '≤', ast.Gt: '>', ast.GtE: '≥', ast.Eq: '=', ast.NotEq: '≠'}.get(type(op))
                 if sym is None:
                     raise Untranslatable(f'comparison {type(op).__name__}', node)
-                if ta != tb or not (ta == INT or (ta == BYTES and sym in '=≠')):
+                if ta != tb or not (ta == INT or (ta in (BYTES, LIST) and sym in '=≠')):
                     raise Untranslatable(f'comparison {type(op).__name__} between {ta} and {tb}', node)
                 out.append(f'{a} {sym} {b}')
             return '(' + ' ∧ '.join(out) + ')'
@@ -768,7 +870,7 @@ class FnTranslator:
                 return f'({x} = some true)'
             if t == INT:
                 return f'({x} ≠ 0)'
-            if t == BYTES:
+            if t == BYTES or t == LIST:
                 return f'({x} ≠ [])'
             raise Untranslatable(f'truthiness of a value of type {t}', node)
         raise Untranslatable(f'test {type(node).__name__}', node)
@@ -785,21 +887,26 @@ class FnTranslator:
         return None
 
     # ------------------------------------------------------------------ statements
-    def block(self, stmts, env, ind):
-        """lines of a do-block for `stmts` (which must end every path in return / raise)"""
+    def block(self, stmts, env, ind, k=None):
+        """lines of a do-block for `stmts`.  k = None: every path must end in return / raise.  Inside a loop body k(env, ind)
+        gives the lines that end an iteration (the loop-carried variables handed on) where the statements run out."""
         pad = '  ' * ind
         if not stmts:
-            raise Untranslatable('a path through the function that ends without return')
+            if k is None:
+                raise Untranslatable('a path through the function that ends without return')
+            return k(env, ind)
         s, rest = stmts[0], stmts[1:]
         env = dict(env)
         pre = []
         if isinstance(s, ast.Expr) and isinstance(s.value, ast.Constant) and isinstance(s.value.value, str):
-            return self.block(rest, env, ind)
+            return self.block(rest, env, ind, k)
         if isinstance(s, ast.Pass):
-            return self.block(rest, env, ind)
+            return self.block(rest, env, ind, k)
         if isinstance(s, ast.Return):
             if s.value is None:
                 raise Untranslatable('return without a value', s)
+            if self.in_loop:
+                raise Untranslatable('return inside a loop', s)
             if isinstance(s.value, ast.Call):
                 x, t = self.call_top(s.value, env, pre)
             else:
@@ -826,20 +933,46 @@ class FnTranslator:
                 raise Untranslatable('chained assignment', s)
             tgt = s.targets[0]
             if isinstance(tgt, ast.Subscript):
-                return self.store(tgt, s.value, env, pad) + self.block(rest, env, ind)
+                return self.store(tgt, s.value, env, pad) + self.block(rest, env, ind, k)
             if isinstance(tgt, ast.Name) and tgt.id in self.mut:
                 if self.buffer_name(s.value) == tgt.id and not isinstance(s.value, ast.Name):
-                    return self.block(rest, env, ind)                  # p = memoryview(p): the same buffer
+                    return self.block(rest, env, ind, k)                  # p = memoryview(p): the same buffer
+                if is_opt(self.ptype[tgt.id]) and tgt.id not in self.localbufs and not self.in_loop \
+                        and isinstance(s.value, ast.Call) and isinstance(s.value.func, ast.Name) \
+                        and s.value.func.id == 'bytearray':
+                    # an OPTIONAL buffer parameter rebound to a fresh bytearray(n): from here on the name is a buffer
+                    # this function owns; the caller's object (None / what was passed) keeps the contents it has now
+                    self.fresh = None
+                    x, t = self.call_top(s.value, env, pre)
+                    if self.fresh is None or x != self.fresh:
+                        raise Untranslatable(f'rebinding of the buffer parameter {tgt.id!r}', s)
+                    keep = self.tmp()
+                    lines = [pad + l for l in pre] + \
+                        [pad + f'let {keep} : {lean_type(self.ptype[tgt.id])} := {self.mut_expr[tgt.id]}',
+                         pad + f'let {ident(tgt.id)} : Bytes := {x}']
+                    self.mut_expr[tgt.id] = keep
+                    self.localbufs.add(tgt.id)
+                    env[tgt.id] = BYTES
+                    return lines + self.block(rest, env, ind, k)
                 raise Untranslatable(f'rebinding of the buffer parameter {tgt.id!r}', s)
             if self.buffer_name(s.value) is not None:
                 raise Untranslatable('a second name for a buffer this function writes to (alias)', s)
+            if isinstance(s.value, ast.Name) and s.value.id in self.locallists:
+                raise Untranslatable('a second name for a list this function appends to (alias)', s)
             self.fresh = None
+            self.fresh_list = False
             if isinstance(s.value, ast.Call):
                 x, t = self.call_top(s.value, env, pre)
             else:
                 x, t = self.expr(s.value, env, pre)
             if x is None:
                 raise Untranslatable('assignment of the result of struct.pack_into', s)
+            if isinstance(tgt, ast.Name) and tgt.id in self.locallists and not isinstance(s.value, ast.List):
+                raise Untranslatable(f'rebinding of the local list {tgt.id!r}', s)
+            if isinstance(s.value, ast.List):
+                if not isinstance(tgt, ast.Name) or (tgt.id in env and tgt.id not in self.locallists) or self.in_loop:
+                    raise Untranslatable('`[]` that is not assigned to a new local name (outside loops)', s)
+                self.locallists.add(tgt.id)
             is_fresh = self.fresh is not None and x == self.fresh
             if isinstance(tgt, ast.Name) and tgt.id in self.localbufs and not is_fresh:
                 raise Untranslatable(f'rebinding of the local buffer {tgt.id!r}', s)
@@ -867,7 +1000,7 @@ class FnTranslator:
                 lines.append(pad + f"let ({', '.join(ident(nm) for nm in names)}) : {lean_type(t)} := {x}")
             else:
                 raise Untranslatable('assignment target that is not a name / tuple of names', s)
-            return lines + self.block(rest, env, ind)
+            return lines + self.block(rest, env, ind, k)
         if isinstance(s, ast.AugAssign):
             if not isinstance(s.target, ast.Name) or s.target.id in self.mut or s.target.id in self.localbufs:
                 raise Untranslatable('augmented assignment target', s)
@@ -883,12 +1016,26 @@ class FnTranslator:
                                                               right=s.value), s), env, pre)
             env[s.target.id] = t
             return [pad + l for l in pre] + [pad + f'let {ident(s.target.id)} : {lean_type(t)} := {x}'] + \
-                self.block(rest, env, ind)
+                self.block(rest, env, ind, k)
+        if isinstance(s, ast.Expr) and isinstance(s.value, ast.Call) and isinstance(s.value.func, ast.Attribute) \
+                and s.value.func.attr == 'append' and isinstance(s.value.func.value, ast.Name) \
+                and s.value.func.value.id in self.locallists:
+            # `l.append(x)` on a list this function created with `[]` (no other name for it exists)
+            l = s.value.func.value.id
+            if s.value.keywords or len(s.value.args) != 1 or env.get(l) != LIST:
+                raise Untranslatable('append() call shape', s)
+            x, t = self.expr(s.value.args[0], env, pre)
+            if t != BYTES:
+                raise Untranslatable('append() of something that is not a byte string', s)
+            return [pad + p_ for p_ in pre] + [pad + f'let {ident(l)} : (List Bytes) := ({ident(l)} ++ [{x}])'] + \
+                self.block(rest, env, ind, k)
+        if isinstance(s, (ast.For, ast.While)):
+            return self.loop(s, rest, env, ind, k)
         if isinstance(s, ast.Expr):
             if not isinstance(s.value, ast.Call):
                 raise Untranslatable('expression statement that is not a call', s)
             x, t = self.call_top(s.value, env, pre)
-            return [pad + l for l in pre] + self.block(rest, env, ind)
+            return [pad + l for l in pre] + self.block(rest, env, ind, k)
         if isinstance(s, ast.If):
             body_t = self.terminates(s.body)
             else_t = self.terminates(s.orelse)
@@ -903,16 +1050,157 @@ class FnTranslator:
                 env_some = dict(env)
                 env_some[pth] = env[pth][1]
                 none_stmts, some_stmts = (then_stmts, else_stmts) if says_none else (else_stmts, then_stmts)
-                return ([pad + f'match {ident(pth)} with', pad + '| none =>'] + self.block(none_stmts, env, ind + 1)
-                        + [pad + f'| some {ident(pth)} =>'] + self.block(some_stmts, env_some, ind + 1))
+                if pth in self.mut:
+                    raise Untranslatable('`is None` test on a parameter that is written to', s)
+                return ([pad + f'match {ident(pth)} with', pad + '| none =>'] + self.block(none_stmts, env, ind + 1, k)
+                        + [pad + f'| some {ident(pth)} =>'] + self.block(some_stmts, env_some, ind + 1, k))
+            ot = self.opt_truth(s.test, env)
+            if ot is not None:
+                # `if x:` / `if not x:` on "None or a byte string": None is false, a byte string is true unless empty.
+                # The false branch is translated twice (x is None; x is an empty byte string).
+                pth, neg = ot
+                true_stmts, false_stmts = (else_stmts, then_stmts) if neg else (then_stmts, else_stmts)
+                st0 = self.save_state()
+                if pth in self.mut:
+                    self.mut_expr[pth] = 'none'
+                l_none = self.block(false_stmts, env, ind + 1, k)
+                self.restore_state(st0)
+                env_some = dict(env)
+                env_some[pth] = env[pth][1]
+                if pth in self.mut:
+                    self.mut_expr[pth] = f'(some {ident(pth)})'
+                st1 = self.save_state()
+                l_true = self.block(true_stmts, env_some, ind + 2, k)
+                self.restore_state(st1)
+                l_false = self.block(false_stmts, env_some, ind + 2, k)
+                self.restore_state(st0)
+                return ([pad + f'match {ident(pth)} with', pad + '| none =>'] + l_none + [pad + f'| some {ident(pth)} =>']
+                        + [pad + f'  if ({ident(pth)} ≠ []) then'] + l_true + [pad + '  else'] + l_false)
             c = self.test(s.test, env, pre)
             if c is True or c is False:
                 # decided by the declared types: only the branch that runs is translated
-                return [pad + l for l in pre] + self.block(then_stmts if c else else_stmts, env, ind)
-            a = self.block(then_stmts, env, ind + 1)
-            b = self.block(else_stmts, env, ind + 1)
+                return [pad + l for l in pre] + self.block(then_stmts if c else else_stmts, env, ind, k)
+            st0 = self.save_state()
+            a = self.block(then_stmts, env, ind + 1, k)
+            self.restore_state(st0)
+            b = self.block(else_stmts, env, ind + 1, k)
+            self.restore_state(st0)
             return [pad + l for l in pre] + [pad + f'if {c} then'] + a + [pad + 'else'] + b
         raise Untranslatable(f'statement {type(s).__name__}', s)
+
+    def opt_truth(self, node, env):
+        """`x` / `not x` on a variable that is "None or a byte string" -> (variable, negated)"""
+        neg = False
+        while isinstance(node, ast.UnaryOp) and isinstance(node.op, ast.Not):
+            node, neg = node.operand, not neg
+        pth = self.path(node, env)
+        if pth is not None and env[pth] == opt(BYTES):
+            return pth, neg
+        return None
+
+    def loop(self, s, rest, env, ind, k):
+        """`for x in <list of byte strings>:` -> Py.forEach (a fold in the exception monad over the variables the body
+        assigns); `while <test>:` -> a separate definition by recursion on a fuel argument (Py: the loop ends when the
+        test is false; the fuel, declared by the request as an int expression evaluated at loop entry, only makes the
+        definition total: running out of it is `PyErr.other`, which no model function returns)."""
+        pad = '  ' * ind
+        if s.orelse:
+            raise Untranslatable('loop with an else clause', s)
+        is_for = isinstance(s, ast.For)
+        inner = list(s.body) + ([] if is_for else [s.test])
+        assigned, mentioned = [], set()
+        for top in inner:
+            for n in ast.walk(top):
+                if isinstance(n, ast.Name):
+                    mentioned.add(n.id)
+                    if isinstance(n.ctx, (ast.Store, ast.Del)) and n.id not in assigned:
+                        assigned.append(n.id)
+                if isinstance(n, ast.Subscript) and isinstance(n.ctx, (ast.Store, ast.Del)) \
+                        and isinstance(n.value, ast.Name) and n.value.id not in assigned:
+                    assigned.append(n.value.id)
+                if isinstance(n, (ast.FunctionDef, ast.AsyncFunctionDef, ast.ClassDef, ast.Global, ast.Nonlocal)):
+                    raise Untranslatable('definition / global declaration inside a loop', n)
+        owned = set(self.mut) | self.localbufs | self.locallists
+        carried = [n for n in env if n != '_' and (n in assigned or (n in mentioned and n in owned))]
+        if any(env[n] == POISON for n in carried):
+            raise Untranslatable('loop that assigns a name bound only inside an earlier loop', s)
+        body_env = dict(env)
+        pre = []
+        if is_for:
+            if not isinstance(s.target, ast.Name) or s.target.id in env or s.target.id in assigned \
+                    or s.target.id == '_' or s.target.id in self.consts:
+                raise Untranslatable('loop variable that is not a new plain name', s)
+            if not (isinstance(s.iter, ast.Name) and env.get(s.iter.id) == LIST) or s.iter.id in assigned \
+                    or s.iter.id in self.locallists:
+                raise Untranslatable('for loop over something that is not a list of byte strings given by name '
+                                     '(and not changed in the loop)', s)
+            body_env[s.target.id] = BYTES
+        types = [env[n] for n in carried]
+        T = lean_type(types[0]) if len(types) == 1 else lean_type(tup(types))
+        pat = ident(carried[0]) if len(carried) == 1 else '(' + ', '.join(ident(n) for n in carried) + ')'
+        sv = ident(carried[0]) if len(carried) == 1 else self.tmp()
+        unpack = [] if len(carried) == 1 else [f'let {pat} : {T} := {sv}'] if carried else []
+        st0 = self.save_state()
+
+        def same_state(env2):
+            for n in carried:
+                if env2.get(n) != env[n]:
+                    raise Untranslatable(f'loop body that changes the type of {n!r}', s)
+            if self.save_state() != st0:
+                raise Untranslatable('loop body that changes which buffers / lists the function owns', s)
+        self.in_loop += 1
+        try:
+            if is_for:
+                def k_body(env2, ind2):
+                    same_state(env2)
+                    return ['  ' * ind2 + f'pure {pat}']
+                body = self.block(list(s.body), body_env, ind + 2, k_body)
+                body[-1] += ')'
+                lines = [pad + f'let {pat} ← Py.forEach {ident(s.iter.id)} {pat} '
+                         f'(fun ({ident(s.target.id)} : Bytes) ({sv} : {T}) => do'] + \
+                    ['  ' * (ind + 2) + u for u in unpack] + body
+            else:
+                self.nloop += 1
+                if self.nloop > len(self.fuel_specs):
+                    raise Untranslatable('while loop without an iteration bound declared by the request', s)
+                name = ident(f'{self.sig.name}_loop_{self.nloop}')
+                src, self.source_seg = self.source_seg, None
+                try:
+                    fuel_text = self.fuel_specs[self.nloop - 1]
+                    fx, ft = self.pure_expr(ast.parse(fuel_text, mode='eval').body, env, 'iteration bound')
+                finally:
+                    self.source_seg = src
+                if ft != INT:
+                    raise Untranslatable('iteration bound that is not an int expression', s)
+                free = [n for n in env if n in mentioned and n not in carried and n != '_' and env[n] != POISON]
+                fv, nv = self.tmp(), sv
+                call = ' '.join([name] + [ident(n) for n in free])
+
+                def k_body(env2, ind2):
+                    same_state(env2)
+                    return ['  ' * ind2 + f'{call} {fv} {pat}']
+                tpre = []
+                c = self.test(s.test, body_env, tpre)
+                if c is True or c is False:
+                    raise Untranslatable('while loop whose test is decided by the declared types', s)
+                body = self.block(list(s.body), body_env, 3, k_body)
+                params = ' '.join(f'({ident(n)} : {lean_type(env[n])})' for n in free)
+                self.aux += [f'/-- the `while` loop of `{self.sig.name}` at line {s.lineno}, over '
+                             f"({', '.join(carried)}): the loop ends when its test is false; the first argument bounds the",
+                             '    number of iterations (running out of it is `PyErr.other`, the marker for "not modelled") -/',
+                             f'def {name} {params} : Nat → {T} → Except PyErr {T}',
+                             '  | 0, _ => .error .other',
+                             f'  | {fv} + 1, {nv} => do'] + ['    ' + u for u in unpack] + \
+                    ['    ' + u for u in tpre] + [f'    if {c} then'] + body + ['    else', f'      pure {pat}', '']
+                lines = [pad + f'let {pat} ← {call} (Int.toNat {fx}) {pat}']
+        finally:
+            self.in_loop -= 1
+        self.restore_state(st0)
+        env_after = dict(env)
+        for n in assigned + ([s.target.id] if is_for else []):
+            if n not in env and n != '_':
+                env_after[n] = POISON
+        return lines + self.block(rest, env_after, ind, k)
 
     def store(self, tgt, value, env, pad):
         """`d[key] = int` on the markers dict; `b[i] = <byte literal>` on a buffer; `b[a:b] = x` on a buffer parameter
@@ -1002,7 +1290,11 @@ class FnTranslator:
             doc += ('; writes to ' + ', '.join(f'`{m}`' for m in self.mut)
                     + ': the result is paired with the final contents of that buffer / dict')
         doc += ' -/'
-        return [doc, f'def {ident(sig.name)} {params} : {self.ret_type()} := do'] + lines
+        if self.identity_calls:
+            doc = doc[:-3] + '; DECLARED by the request: ' + ', '.join(f'`{c}(x)`' for c in sorted(self.identity_calls)) + \
+                ' on a list of byte strings returns an equal list (the function is translated for arguments that are ' \
+                'already lists of byte strings) -/'
+        return self.aux + [doc, f'def {ident(sig.name)} {params} : {self.ret_type()} := do'] + lines
 
 
 def module_bindings(tree):
@@ -1042,7 +1334,7 @@ def module_bindings(tree):
     return binds, dirty
 
 
-def translate_module(path, wanted, namespace, relpath, imports=None, methods=None):
+def translate_module(path, wanted, namespace, relpath, imports=None, methods=None, fn_specs=None):
     """Lean text for the functions `wanted` (each after its callees) of the module at `path`.
     imports: {(level, module name): (sigs of that module as returned here, Lean prefix, Lean module to import)} - the
     sibling modules whose translated functions this module may call after `from <..module> import name`."""
@@ -1070,7 +1362,11 @@ def translate_module(path, wanted, namespace, relpath, imports=None, methods=Non
             struct_ok = False
         if isinstance(n, ast.arg) and n.arg == 'struct':
             struct_ok = False
-    sigs = {k: Sig(v, consts) for k, v in defs.items()}
+    # `reduce` must be functools.reduce: imported plainly at module level, bound to nothing else
+    reduce_ok = stable('reduce') and isinstance(binds['reduce'][0], ast.ImportFrom) and binds['reduce'][0].level == 0 \
+        and binds['reduce'][0].module == 'functools' \
+        and any(a.name == 'reduce' and a.asname is None for a in binds['reduce'][0].names)
+    sigs = {k: Sig(v, consts, (fn_specs or {}).get(k)) for k, v in defs.items()}
     lean_imports = ['NdnModel.PySem']
     for n in tree.body:
         if isinstance(n, ast.ImportFrom) and (n.level, n.module) in imports:
@@ -1107,11 +1403,13 @@ def translate_module(path, wanted, namespace, relpath, imports=None, methods=Non
             if uses_struct and not struct_ok:
                 raise Untranslatable('`struct` is not the plainly imported standard module in this file')
             for n in ast.walk(s.fn):
-                if isinstance(n, ast.Call) and isinstance(n.func, ast.Name) and n.func.id in defs and n.func.id != name:
+                if isinstance(n, ast.Call) and isinstance(n.func, ast.Name) and n.func.id in defs and n.func.id != name \
+                        and n.func.id not in s.spec.get('identity_calls', ()):
                     if n.func.id in stack:
                         raise Untranslatable('recursion')
                     visit(n.func.id, stack + [name])
             tr = FnTranslator(s, sigs, consts, binds)
+            tr.reduce_ok = reduce_ok
             lines = tr.translate(source, relpath)
             status[name] = None
             s.done = True
@@ -1197,6 +1495,15 @@ COMPONENT_WANTED = ['get_type', 'get_value', 'to_number', 'from_bytes', 'from_nu
                     'from_sequence_num', 'from_version', 'from_timestamp']
 
 
+# Name.py: the wire-level functions.  What the request declares (Python does not): the iteration bound of the `while`
+# loop of decode (an int expression over the variables at loop entry; lean/NdnProofs/Props/NameGen.lean proves that it
+# is never exhausted), and that is_prefix is translated for arguments that are already FormalNames, on which
+# `normalize` returns an equal list.
+NAME_WANTED = ['encoded_length', 'encode', 'decode', 'is_prefix']
+NAME_SPECS = {'decode': {'fuel': ['length + 1']},
+              'is_prefix': {'params': {'lhs': LIST, 'rhs': LIST}, 'identity_calls': ['normalize']}}
+
+
 # The field classes of tlv_model.py: the types under which their methods are translated.  `val` is what the class
 # documents as the value of the field (None when absent); `instance` is not used by these methods; `markers` holds
 # the int entries `<field name>##...` of the two-pass encoder.
@@ -1253,7 +1560,14 @@ def generate_all(repo):
     except (OSError, SyntaxError, ValueError, RecursionError) as e:
         textm = _unreadable(relm, 'Ndn.Gen.TlvModelFields', [f'{c}_{m}' + (f'_{v}' if v else '')
                                                              for c, m, v, _ in TLV_MODEL_METHODS], e)
-    return {'TlvVar': text, 'Component': textc, 'TlvModelFields': textm}
+    reln = 'src/ndn/encoding/name/Name.py'
+    try:
+        textn, _, _ = translate_module(os.path.join(repo, reln), NAME_WANTED, 'Ndn.Gen.NameGen', reln,
+                                       imports={(2, 'tlv_var'): (sigs, 'TlvVar.', 'NdnGen.TlvVar')}, fn_specs=NAME_SPECS)
+        textn = textn.replace('open Ndn\n', 'open Ndn Ndn.Gen\n', 1)
+    except (OSError, SyntaxError, ValueError, RecursionError) as e:
+        textn = _unreadable(reln, 'Ndn.Gen.NameGen', NAME_WANTED, e)
+    return {'TlvVar': text, 'Component': textc, 'TlvModelFields': textm, 'NameGen': textn}
 
 
 def generate(repo):
